@@ -1623,3 +1623,26 @@ func init() {
 		return iface{t: types.NewPointer(t), v: ptrTo(structure{parent, key, a[2]})}
 	}
 }
+
+func init() {
+	// maps.clone is implemented in the runtime (linkname): a shallow copy.
+	externals["maps.clone"] = func(fr *frame, a []value) value {
+		in, ok := a[0].(iface)
+		if !ok {
+			return a[0]
+		}
+		m, ok := in.v.(*omap)
+		if !ok || m == nil {
+			return in
+		}
+		out := &omap{keyType: m.keyType, idx: make(map[value]int, len(m.keys)), nsym: m.nsym}
+		for k := range m.keys {
+			if indexable(m.keys[k]) {
+				out.idx[m.keys[k]] = len(out.keys)
+			}
+			out.keys = append(out.keys, m.keys[k])
+			out.vals = append(out.vals, copyVal(m.vals[k]))
+		}
+		return iface{t: in.t, v: out}
+	}
+}
